@@ -42,6 +42,8 @@ def operands(ctx, o, quick):
     w = o["w"]
     wy = o.get("w2", w) if o["cls"] in ("shl", "shr") else w
     bx, by = boundary(w), boundary(wy)
+    if o["cls"] in ("quox", "remx"):      # constant dividend, variable divisor: the operand travels in the y slot
+        return [(0, y) for y in bx + [rng.getrandbits(w) for _ in range(8)]]
     unary = o["cls"] in ("neg", "not", "conv", "quoc", "remc", "shlc", "shrc")
     if quick:
         bx = [v for i, v in enumerate(bx) if i % 3 == 0 or v in (0, 1, (1 << (w - 1)), (1 << w) - 1, (1 << (w - 1)) - 1)]
